@@ -36,7 +36,8 @@ DELAYS = (0.0, 0.0, 0.01, 0.1, 0.4)
 
 def gen(rng, tier):
     mode = rng.choice(['async', 'thread'])
-    cfg = {'mode': mode, 'style': rng.choice(['func', 'func', 'class']),
+    cfg = {'mode': mode, 'style': rng.choice(['func', 'func', 'class',
+                                               'both']),
            'coroutine': rng.random() < 0.6,
            'handler_nss': rng.sample(NSS, rng.randrange(1, 4)),
            'lat': rng.randrange(2),
@@ -167,11 +168,14 @@ def _run(case, cfg, w):
     coroutine = cfg['coroutine'] and w.mode == 'async'
     events = ['connect', 'disconnect', 'connect_error', 'ev']
     for ns in cfg['handler_nss']:
-        if cfg['style'] == 'func':
+        if cfg['style'] in ('func', 'both'):
             for evn in events:
                 c.on(evn, w.make_handler(('c', 'func', ns, evn), plan,
                                          coroutine), namespace=ns)
-        else:
+        if cfg['style'] in ('class', 'both'):
+            # ('both': function handlers and a class-based namespace for the
+            # same namespace - the function handlers take precedence, and
+            # the namespace is still requested only once)
             base = socketio.AsyncClientNamespace if w.mode == 'async' \
                 else socketio.ClientNamespace
             c.register_namespace(w.make_namespace(
